@@ -1,4 +1,5 @@
 import Proofs.Machine.Passthrough
+import Proofs.Machine.GlobalOrderLazy
 import Proofs.Ingest
 import Proofs.AnsiGit
 /-!
@@ -226,5 +227,210 @@ example :
   decide
 
 end IngestLine
+
+/-! ### Global order of the output (C04 "in order and interleaved correctly", C01 "no hunk line moved
+past a header", C14 "header before the file's hunks and after everything of the previous file")
+
+`Row.src` is the ghost stamp of a row = index of the input line it was produced from. For the lazily
+written rows (read off the handlers, confirmed by evaluation below): a pending hunk header carries
+the index of its `@@` line; buffered minus/plus lines the index of their own line; the submodule
+short form the index of its `+Subproject commit` line; the file header of a section without
+`--- `/`+++ ` lines (`handle_pending_line_with_diff_name`) the index of the line that TRIGGERS the
+write (next `diff ` line, next commit line, or `ls.length` at the end of the input) — for that row
+`lazy_file_header_in_place` / `lazy_file_header_at_end` say where it stands. -/
+
+/-- **`all_rows_in_input_order`** (whole runs, every configuration of the model). If no line of the
+input opens a merge-conflict region and no `@@` line is directly followed by a `Binary files …` /
+`new file mode …` / `deleted file mode …` line (`NoStray`, decidable), then the input indices carried
+by ALL rows of delta's output — raw pass-through rows, commit / file / hunk-header rows with their
+blank and decoration rows, mode / binary / submodule rows, hunk-line rows — are non-decreasing: no
+row of a later line stands before a row of an earlier line, whatever kinds the rows have. (One input
+line can produce several rows, hence `≤`.) -/
+theorem all_rows_in_input_order {cfg : Cfg} {ls : List L} {m : M}
+    (hmc : ∀ l ∈ ls, startsWith l.text Generated.Markers.mcBegin = false) (hns : NoStray ls)
+    (e : run cfg ls = .ok m) : (m.out.map (·.src)).Pairwise (· ≤ ·) :=
+  (run_rows_sorted hmc hns e).1
+
+/-- … and every stamp is the index of an input line, or `ls.length` for a file header written by
+the statements after the loop. -/
+theorem all_rows_stamped_within_input {cfg : Cfg} {ls : List L} {m : M}
+    (hmc : ∀ l ∈ ls, startsWith l.text Generated.Markers.mcBegin = false) (hns : NoStray ls)
+    (e : run cfg ls = .ok m) : ∀ r ∈ m.out, r.src ≤ ls.length :=
+  (run_rows_sorted hmc hns e).2
+
+def mkL (s : String) : L :=
+  { raw := s.toList, text := s.toList, graphemes := s.toList.map (fun c => [c]),
+    commitRe := false, blame := false, grep := 0, submodule := none }
+def mkC (s : String) : L := { mkL s with commitRe := true }
+
+/-- `git log -p` shaped input: commit block, message text, a file section with a hunk, a mode-only
+section (its header is written lazily, when the next commit line arrives), another commit block with
+a file section -/
+def logP : List L :=
+  [mkC "commit 1a2b", mkL "Author: A <a@b>", mkL "", mkL "    Fix the thing", mkL "",
+   mkL "diff --git a/x b/x", mkL "index 1..2 100644", mkL "--- a/x", mkL "+++ b/x", mkL "@@ -1,2 +1,2 @@ fn f()",
+   mkL " ctx", mkL "-old", mkL "+new",
+   mkL "diff --git a/m b/m", mkL "old mode 100644", mkL "new mode 100755",
+   mkC "commit 3c4d", mkL "Author: A <a@b>", mkL "", mkL "    Second message", mkL "",
+   mkL "diff --git a/y b/y", mkL "--- a/y", mkL "+++ b/y", mkL "@@ -3 +3 @@", mkL "-a", mkL "+b"]
+
+example : ∀ l ∈ logP, startsWith l.text Generated.Markers.mcBegin = false := by decide
+example : NoStray logP := by decide
+/-- what the conclusion says there: commit row 0, raw rows 1–4, blank + file header at the `+++ `
+line 8, blank + hunk header stamped with the `@@` line 9, hunk lines 10–12, the lazily written header
+of the mode-only section (blank + file row) stamped with its trigger 16 followed by the commit row 16,
+raw rows 17–20, the second section -/
+example : (match run {} logP with | .ok m => m.out.map (·.src) | .error _ => []) =
+    [0, 1, 2, 3, 4, 8, 8, 9, 9, 10, 11, 12, 16, 16, 16, 17, 18, 19, 20, 23, 23, 24, 24, 25, 26] := by decide
+example : (match run {} logP with | .ok m => (m.out.filter (fun r => r.src == 16)).map (fun r => (r.kind, String.ofList r.text)) | .error _ => []) =
+    [(.blank, ""), (.file, "m (mode +x)"), (.commit, "commit 3c4d")] := by decide
+
+/-- The hypothesis `NoStray` is needed, first kind (`Binary files` line while no file name is known):
+the line is written at once, the hunk header that was pending after it. Confirmed on the real binary
+(`printf '@@ -1 +1 @@\nBinary files a and b differ\n x\n' | delta`): the `Binary files` line is shown
+above the hunk header. git never produces this input. -/
+theorem stray_binary_line_overtakes_pending_hunk_header :
+    (match run {} (["@@ -1 +1 @@", "Binary files a and b differ", " x"].map mkL) with
+     | .ok m => m.out.map (·.src)
+     | .error _ => []) = [1, 0, 0, 2] := by decide
+
+/-- … second kind (`new file mode` line in plain `diff -u` input under `--color-only`): real binary
+`printf -- '--- a\n+++ b\n@@ -1 +1 @@\nnew file mode 100644\n x\n' | delta --color-only` prints the
+`new file mode` line above the `@@` line (so `--color-only` is not line-for-line on this input). -/
+theorem stray_file_operation_line_overtakes_pending_hunk_header :
+    (match run { colorOnly := true } (["--- a", "+++ b", "@@ -1 +1 @@", "new file mode 100644", " x"].map mkL) with
+     | .ok m => m.out.map (·.src)
+     | .error _ => []) = [0, 1, 3, 2, 4] := by decide
+
+example : ¬ NoStray (["@@ -1 +1 @@", "Binary files a and b differ", " x"].map mkL) := by decide
+
+/-- The hypothesis about conflict regions is needed: the lines of a region are buffered until its end
+marker and then shown as two comparisons (ancestor lines twice, ancestor before "ours"). -/
+theorem conflict_region_not_in_input_order :
+    (match run {} (["diff --cc x", "--- a/x", "+++ b/x", "@@@ -1,3 -1,3 +1,7 @@@", "++<<<<<<< HEAD", "+ ours",
+                    "++||||||| base", "++anc", "++=======", " +theirs", "++>>>>>>> other"].map mkL) with
+     | .ok m => (m.out.map (·.src)).drop 4
+     | .error _ => []) = [10, 10, 10, 10, 7, 5, 10, 10, 10, 7, 9, 10] := by decide
+
+/-- **`rows_of_earlier_lines_stand_before`** (whole runs, by position): if the row at position `i` of
+the output is stamped with a smaller input index than the row at position `j`, then `i < j`. With
+where the header rows come from (file header: the `+++ ` line of its section, `C14`; hunk header: its
+`@@` line) this reads: a file header stands before every row of its file's hunks and after every row
+of the previous file; no hunk line stands on the wrong side of a header. -/
+theorem rows_of_earlier_lines_stand_before {cfg : Cfg} {ls : List L} {m : M}
+    (hmc : ∀ l ∈ ls, startsWith l.text Generated.Markers.mcBegin = false) (hns : NoStray ls)
+    (e : run cfg ls = .ok m) {i j : Nat} {r1 r2 : Row} (h1 : m.out[i]? = some r1) (h2 : m.out[j]? = some r2)
+    (hlt : r1.src < r2.src) : i < j :=
+  run_rows_positions hmc hns e h1 h2 hlt
+
+/-- on `logP`: position 6 is the file header of `x` (stamped with line 8, the `+++ ` line), position 11
+the `+new` row of its hunk (line 12) -/
+example : (match run {} logP with
+    | .ok m => (m.out[6]?.map (fun r => (r.kind, r.src)), m.out[11]?.map (fun r => (r.kind, r.src)))
+    | .error _ => (none, none)) = (some (.file, 8), some (.plus, 12)) := by decide
+
+/-- **`rows_split_at`** (whole runs): cut the input anywhere, `ls = A ++ B`. The output is
+`before ++ after`: `before` holds exactly the rows stamped with a line of `A`, `after` the rows
+stamped with a line of `B` (or `ls.length`). -/
+theorem rows_split_at {cfg : Cfg} {A B : List L} {m : M}
+    (hmc : ∀ l ∈ A ++ B, startsWith l.text Generated.Markers.mcBegin = false) (hns : NoStray (A ++ B))
+    (e : run cfg (A ++ B) = .ok m) :
+    ∃ before after, m.out = before ++ after ∧ (∀ r ∈ before, r.src < A.length) ∧
+      (∀ r ∈ after, A.length ≤ r.src) :=
+  run_rows_split_at hmc hns e
+
+/-- **`section_rows_between_headers`** (whole runs). Let `S` be the lines of file section k (from its
+`diff ` line to the line before the next section's `diff ` line, or any other block of consecutive
+lines), `A` what precedes and `B` what follows. The output is `a ++ s ++ b`: all rows of earlier
+lines, then all rows stamped with a line of the section (its eagerly written file header — stamped
+with the `+++ ` line, see `C14.one_file_header_per_section` — its hunk headers and hunk lines), then
+all rows of later lines, among them the file header of section k+1. A lazily written header of
+section k itself is the first thing in `b` (`lazy_file_header_in_place`). -/
+theorem section_rows_between_headers {cfg : Cfg} {A S B : List L} {m : M}
+    (hmc : ∀ l ∈ A ++ S ++ B, startsWith l.text Generated.Markers.mcBegin = false) (hns : NoStray (A ++ S ++ B))
+    (e : run cfg (A ++ S ++ B) = .ok m) :
+    ∃ a s b, m.out = a ++ s ++ b ∧ (∀ r ∈ a, r.src < A.length) ∧
+      (∀ r ∈ s, A.length ≤ r.src ∧ r.src < A.length + S.length) ∧ (∀ r ∈ b, A.length + S.length ≤ r.src) :=
+  run_section_block hmc hns e
+
+/-- on `logP` with `S` = the first file section (lines 5–12): its block is the file header, the hunk
+header and the three hunk lines; the commit block stands before, everything else after -/
+example : logP = logP.take 5 ++ (logP.drop 5).take 8 ++ logP.drop 13 := rfl
+example : (match run {} logP with
+    | .ok m => (m.out.filter (fun r => 5 ≤ r.src && r.src < 13)).map (·.kind)
+    | .error _ => []) = [.blank, .file, .blank, .hunkHeader, .zero, .minus, .plus] := by decide
+
+/-- **`passthrough_rows_in_place`** (whole runs, every configuration, any input). A line met in state
+Unknown / CommitMeta of a stream that is not plain `diff -u` output (text before the first diff,
+commit-message text between the file sections of `git log -p`) which opens no construct
+(`PlainText`: `NotOpener` and not the start of plain diff output) has exactly one row in delta's
+output: a raw row with the line unchanged; it stands after every row of every earlier line and before
+every row of every later line — whatever constructs the rest of the input contains. -/
+theorem passthrough_rows_in_place {cfg : Cfg} {pre post : List L} {l : L} {mi m : M}
+    (hmc : ∀ x ∈ pre ++ l :: post, startsWith x.text Generated.Markers.mcBegin = false)
+    (hns : NoStray (pre ++ l :: post))
+    (ei : runFrom cfg {} pre = .ok mi) (hst : mi.st = .unknown ∨ mi.st = .commitMeta)
+    (hsrc : mi.source ≠ .diffUnified) (hl : PlainText l) (e : run cfg (pre ++ l :: post) = .ok m) :
+    ∃ A C, m.out = A ++ [{ kind := .raw, text := l.raw, src := pre.length }] ++ C ∧
+      (∀ r ∈ A, r.src < pre.length) ∧ (∀ r ∈ C, pre.length < r.src) :=
+  run_passthrough_in_place hmc hns ei hst hsrc hl e
+
+/-- line 19 of `logP` (`    Second message`, after two file sections and a commit line): the
+hypotheses hold, and the conclusion names its one row -/
+example : logP = logP.take 19 ++ mkL "    Second message" :: logP.drop 20 := rfl
+example : (match runFrom {} {} (logP.take 19) with
+    | .ok mi => mi.st == .commitMeta && mi.source == .gitDiff
+    | .error _ => false) = true := by decide
+example : PlainText (mkL "    Second message") := ⟨by constructor <;> decide, by decide⟩
+example : (match run {} logP with
+    | .ok m => m.out.filter (fun r => r.src == 19)
+    | .error _ => []) = [{ kind := .raw, text := "    Second message".toList, src := 19 }] := by decide
+
+/-- **`lazy_file_header_in_place`** (whole runs). `t` a `diff ` line, `mi` the machine when it arrives.
+The output is `timeline mi ++ H ++ rest`: everything rendered for the lines before `t` (all stamped
+below `t`), then the rows `H` that `handle_pending_line_with_diff_name` writes at that moment for the
+section that ends here (its file header if still owed: mode change, rename, binary, empty file; stamped
+with the index of `t`), then every other row of `t` and of the later lines. So a lazily written file
+header stands after everything that belongs to the previous lines and before anything of the next
+section. -/
+theorem lazy_file_header_in_place {cfg : Cfg} {pre post : List L} {t : L} {mi m : M}
+    (hmc : ∀ x ∈ pre ++ t :: post, startsWith x.text Generated.Markers.mcBegin = false)
+    (hns : NoStray (pre ++ t :: post))
+    (ei : runFrom cfg {} pre = .ok mi) (hd : startsWith t.text Markers.diffLine = true) (hc : t.commitRe = false)
+    (e : run cfg (pre ++ t :: post) = .ok m) :
+    ∃ H rest, m.out = timeline mi ++ H ++ rest ∧
+      timeline (pendingDiffName cfg { flushMP (stepInit mi t) with st := diffLineState t }) = timeline mi ++ H ∧
+      (∀ r ∈ timeline mi, r.src < pre.length) ∧ (∀ r ∈ H, r.src = pre.length) ∧
+      (∀ r ∈ rest, pre.length ≤ r.src) :=
+  run_lazy_file_header_in_place hmc hns ei hd hc e
+
+/-- **`lazy_file_header_at_end`**: … and when the input ends, the output is everything rendered in the
+loop followed by the rows `handle_pending_line_with_diff_name` writes for the last section, stamped
+`ls.length`. -/
+theorem lazy_file_header_at_end {cfg : Cfg} {ls : List L} {m1 m : M}
+    (hmc : ∀ x ∈ ls, startsWith x.text Generated.Markers.mcBegin = false) (hns : NoStray ls)
+    (e1 : runFrom cfg {} ls = .ok m1) (e : run cfg ls = .ok m) :
+    ∃ H, m.out = timeline m1 ++ H ∧ timeline (pendingDiffName cfg (flushMP m1)) = timeline m1 ++ H ∧
+      (∀ r ∈ timeline m1, r.src < ls.length) ∧ (∀ r ∈ H, r.src = ls.length) :=
+  run_lazy_file_header_at_end hmc hns e1 e
+
+/-- a new empty file followed by another section, and a mode change that ends the input: the lazily
+written headers carry the index of the trigger (3) resp. `ls.length` (3) -/
+example : (match run {} (["diff --git a/e b/e", "new file mode 100644", "index 000..111", "diff --git a/x b/x", "--- a/x", "+++ b/x"].map mkL) with
+    | .ok m => m.out.map (fun r => (r.src, r.kind, String.ofList r.text))
+    | .error _ => []) = [(3, .blank, ""), (3, .file, "added: e"), (5, .blank, ""), (5, .file, "x")] := by decide
+example : (match run {} (["diff --git a/m b/m", "old mode 100644", "new mode 100755"].map mkL) with
+    | .ok m => m.out.map (fun r => (r.src, r.kind, String.ofList r.text))
+    | .error _ => []) = [(3, .blank, ""), (3, .file, "m (mode +x)")] := by decide
+
+/-- What `lazy_file_header_in_place` also shows: the lazily written header stands AFTER the rows of its
+own section's lines. git's sections without `--- `/`+++ ` lines have no such rows; a hand-made section
+with a hunk but no `--- `/`+++ ` lines gets its file header below its hunk — in the model and in the
+real binary (`printf 'diff --git a/x b/x\n@@ -1 +1 @@\n x\ndiff --git a/y b/y\n' | delta`). -/
+theorem file_header_after_hunk_without_name_lines :
+    (match run {} (["diff --git a/x b/x", "@@ -1 +1 @@", " x", "diff --git a/y b/y"].map mkL) with
+     | .ok m => m.out.map (fun r => (r.src, r.kind))
+     | .error _ => []) = [(1, .blank), (1, .hunkHeader), (2, .zero), (3, .blank), (3, .file), (4, .blank), (4, .file)] := by
+  decide
 
 end C04
